@@ -1,3 +1,756 @@
-import MgpuModel.C03S
+import MgpuProofs.C03SLemmas
+/-! # C03 (scalar part) — every scalar instruction executes as the ISA prescribes
+
+`Gen.gcn3.*` / `Gen.cdna3.*` are REGENERATED from the Go handlers (`emu.ALUImpl`, `cdna3.ALU`) on
+every run; `C03S.Spec.*` is the independent ISA transcription.  A handler's output record lists
+everything it writes (`none` = not written), so equality of the records is equality of the whole
+architectural effect including the frame.  `ScalarOut.norm w` keeps the low `w` bits of the value
+handed to `WriteOperand`, as the register file does for a destination of `w` bits. -/
 namespace C03S
+open C03S
+set_option maxRecDepth 2000
+
+/-! ## Meaning of the specification (so that it is not a second copy of the code) -/
+
+/-- `s_add_u32`: the destination is the sum modulo 2³², SCC is the carry out of bit 31. -/
+theorem s_add_u32_meaning (i : ScalarIn) :
+    ∃ d, (Spec.s_add_u32 i).dst = some d ∧
+      d.toNat = ((Spec.lo i.src0).toNat + (Spec.lo i.src1).toNat) % 4294967296 ∧
+      (Spec.s_add_u32 i).scc = some (if (Spec.lo i.src0).toNat + (Spec.lo i.src1).toNat ≥ 4294967296 then 1#8 else 0#8) := by
+  refine ⟨_, rfl, ?_, ?_⟩
+  · simp [Spec.w32, BitVec.toNat_add]; omega
+  · simp [Spec.s_add_u32, Spec.ret32, Spec.bit]
+
+/-- `s_sub_u32`: SCC is the unsigned borrow, the destination the difference modulo 2³². -/
+theorem s_sub_u32_meaning (i : ScalarIn) :
+    (Spec.s_sub_u32 i).scc = some (if (Spec.lo i.src0).toNat < (Spec.lo i.src1).toNat then 1#8 else 0#8) ∧
+    (Spec.s_sub_u32 i).dst = some (Spec.w32 (Spec.lo i.src0 - Spec.lo i.src1)) := by
+  simp [Spec.s_sub_u32, Spec.ret32, Spec.bit]
+
+/-- `s_add_i32` / `s_sub_i32`: SCC = 1 exactly when the exact signed result does not fit in 32 bits. -/
+theorem s_add_i32_scc_is_signed_overflow (a b : BitVec 32) :
+    Spec.addOvf a b = true ↔ (a.toInt + b.toInt > 2147483647 ∨ a.toInt + b.toInt < -2147483648) := by
+  simp only [Spec.addOvf, decide_eq_true_eq]; omega
+theorem s_sub_i32_scc_is_signed_overflow (a b : BitVec 32) :
+    Spec.subOvf a b = true ↔ (a.toInt - b.toInt > 2147483647 ∨ a.toInt - b.toInt < -2147483648) := by
+  simp only [Spec.subOvf, decide_eq_true_eq]; omega
+
+/-- `s_lshr_b32`: a logical shift by the low five bits of S1, i.e. division by 2^(S1 mod 32). -/
+theorem s_lshr_b32_meaning (i : ScalarIn) :
+    ∃ d : BitVec 32, (Spec.s_lshr_b32 i).dst = some (Spec.w32 d) ∧
+      d.toNat = (Spec.lo i.src0).toNat / 2 ^ ((Spec.lo i.src1).toNat % 32) := by
+  refine ⟨_, rfl, ?_⟩
+  simp [BitVec.toNat_ushiftRight, Nat.shiftRight_eq_div_pow]
+
+/-- `s_mul_i32` never writes SCC; logic operations set SCC to "result is non-zero". -/
+theorem s_mul_i32_leaves_scc (i : ScalarIn) : (Spec.s_mul_i32 i).scc = none := rfl
+theorem s_and_b32_scc (i : ScalarIn) :
+    (Spec.s_and_b32 i).scc = some (if (Spec.lo i.src0 &&& Spec.lo i.src1) = 0#32 then 0#8 else 1#8) := by
+  simp only [Spec.s_and_b32, Spec.logic32, Spec.ret32, Spec.bit]
+  by_cases h : (Spec.lo i.src0 &&& Spec.lo i.src1) = 0#32 <;> simp [h]
+
+/-- `s_min_i32` selects the smaller signed value and sets SCC iff S0 was selected. -/
+theorem s_min_i32_meaning (i : ScalarIn) :
+    ((Spec.lo i.src0).toInt < (Spec.lo i.src1).toInt →
+        Spec.s_min_i32 i = Spec.ret32 (Spec.lo i.src0) true) ∧
+    (¬ (Spec.lo i.src0).toInt < (Spec.lo i.src1).toInt →
+        Spec.s_min_i32 i = Spec.ret32 (Spec.lo i.src1) false) := by
+  constructor <;> intro h <;> simp [Spec.s_min_i32, slt_iff', h]
+
+/-- a taken branch goes to PC + 4 + signext(SIMM16)·4, where PC is the address of the branch:
+    `i.pc` already is PC + 4 (both compute units advance it before the ALU runs). -/
+theorem s_branch_target (i : ScalarIn) (pcInst : BitVec 64) (h : i.pc = pcInst + 4#64) :
+    (Spec.s_branch i).pc = some (pcInst + 4#64 + (i.simm16.setWidth 16).signExtend 64 * 4#64) := by
+  simp [Spec.s_branch, Spec.retPc, Spec.target, Spec.imm64, h]
+
+/-- `s_cbranch_scc1` is taken exactly when SCC is set and otherwise writes nothing at all. -/
+theorem s_cbranch_scc1_meaning (i : ScalarIn) :
+    (i.scc = 0#8 → Spec.s_cbranch_scc1 i = ScalarOut.nothing) ∧
+    (i.scc ≠ 0#8 → Spec.s_cbranch_scc1 i = Spec.retPc (Spec.target i)) := by
+  constructor <;> intro h <;> simp [Spec.s_cbranch_scc1, Spec.cbranch, Spec.nothing, h]
+
+/-- saveexec: the destination receives the OLD exec mask, EXEC the combination, SCC = (EXEC ≠ 0). -/
+theorem s_and_saveexec_b64_meaning (i : ScalarIn) :
+    (Spec.s_and_saveexec_b64 i).dst = some i.exec ∧
+    (Spec.s_and_saveexec_b64 i).exec = some (i.src0 &&& i.exec) ∧
+    (Spec.s_and_saveexec_b64 i).pc = none ∧ (Spec.s_and_saveexec_b64 i).vcc = none := by
+  simp [Spec.s_and_saveexec_b64, Spec.saveexec]
+
+example : (Spec.s_add_i32 { src0 := 0x7fffffff#64, src1 := 1#64, dstOld := 0, scc := 0, vcc := 0, exec := 0, pc := 0, simm16 := 0 }).scc = some 1#8 := by decide
+example : (Spec.s_bfe_i32 { src0 := 0xf0#64, src1 := 0x40004#64, dstOld := 0, scc := 0, vcc := 0, exec := 0, pc := 0, simm16 := 0 }).dst = some 0xffffffff#64 := by decide
+
+/-! ## Conformance of every translated handler (tie R), per architecture and opcode -/
+
+/-- GCN3 `s_add_u32` (format 0, opcode 0): the handler the opcode switch selects has, for every input, exactly the effect the ISA prescribes. -/
+theorem gcn3_s_add_u32_conforms : ConformsTo Gen.gcn3.dispatch 0 0 32 Spec.s_add_u32 :=
+  ⟨_, rfl, by conform Gen.gcn3.run_SADDU32 Spec.s_add_u32⟩
+
+/-- GCN3 `s_sub_u32` (format 0, opcode 1): the handler the opcode switch selects has, for every input, exactly the effect the ISA prescribes. -/
+theorem gcn3_s_sub_u32_conforms : ConformsTo Gen.gcn3.dispatch 0 1 32 Spec.s_sub_u32 :=
+  ⟨_, rfl, by conform Gen.gcn3.run_SSUBU32 Spec.s_sub_u32⟩
+
+/-- GCN3 `s_add_i32` (format 0, opcode 2): the handler the opcode switch selects has, for every input, exactly the effect the ISA prescribes. -/
+theorem gcn3_s_add_i32_conforms : ConformsTo Gen.gcn3.dispatch 0 2 32 Spec.s_add_i32 :=
+  ⟨_, rfl, by
+    intro i
+    simp only [Gen.gcn3.run_SADDI32, Spec.s_add_i32, Spec.lo, ← ovf_add]
+    (repeat' split) <;> simp_all [ScalarOut.norm, keep, Spec.ret32, Spec.w32, Spec.bit]⟩
+
+/-- GCN3 `s_sub_i32` (format 0, opcode 3): the handler the opcode switch selects has, for every input, exactly the effect the ISA prescribes. -/
+theorem gcn3_s_sub_i32_conforms : ConformsTo Gen.gcn3.dispatch 0 3 32 Spec.s_sub_i32 :=
+  ⟨_, rfl, by
+    intro i
+    simp only [Gen.gcn3.run_SSUBI32, Spec.s_sub_i32, Spec.lo, ← ovf_sub]
+    (repeat' split) <;> simp_all [ScalarOut.norm, keep, Spec.ret32, Spec.w32, Spec.bit]⟩
+
+/-- GCN3 `s_addc_u32` (format 0, opcode 4): the handler the opcode switch selects has, for every input, exactly the effect the ISA prescribes. -/
+theorem gcn3_s_addc_u32_conforms : ConformsScc Gen.gcn3.dispatch 0 4 32 Spec.s_addc_u32 :=
+  ⟨_, rfl, by conformS Gen.gcn3.run_SADDCU32 Spec.s_addc_u32⟩
+
+/-- GCN3 `s_subb_u32` (format 0, opcode 5): the handler the opcode switch selects has, for every input, exactly the effect the ISA prescribes. -/
+theorem gcn3_s_subb_u32_conforms : ConformsScc Gen.gcn3.dispatch 0 5 32 Spec.s_subb_u32 :=
+  ⟨_, rfl, by conformS Gen.gcn3.run_SSUBBU32 Spec.s_subb_u32⟩
+
+/-- GCN3 `s_min_i32` (format 0, opcode 6): the handler the opcode switch selects has, for every input, exactly the effect the ISA prescribes. -/
+theorem gcn3_s_min_i32_conforms : ConformsTo Gen.gcn3.dispatch 0 6 32 Spec.s_min_i32 :=
+  ⟨_, rfl, by conform Gen.gcn3.run_SMINI32 Spec.s_min_i32⟩
+
+/-- GCN3 `s_min_u32` (format 0, opcode 7): the handler the opcode switch selects has, for every input, exactly the effect the ISA prescribes. -/
+theorem gcn3_s_min_u32_conforms : ConformsTo Gen.gcn3.dispatch 0 7 32 Spec.s_min_u32 :=
+  ⟨_, rfl, by conform Gen.gcn3.run_SMINU32 Spec.s_min_u32⟩
+
+/-- GCN3 `s_max_i32` (format 0, opcode 8): the handler the opcode switch selects has, for every input, exactly the effect the ISA prescribes. -/
+theorem gcn3_s_max_i32_conforms : ConformsTo Gen.gcn3.dispatch 0 8 32 Spec.s_max_i32 :=
+  ⟨_, rfl, by conform Gen.gcn3.run_SMAXI32 Spec.s_max_i32⟩
+
+/-- GCN3 `s_max_u32` (format 0, opcode 9): the handler the opcode switch selects has, for every input, exactly the effect the ISA prescribes. -/
+theorem gcn3_s_max_u32_conforms : ConformsTo Gen.gcn3.dispatch 0 9 32 Spec.s_max_u32 :=
+  ⟨_, rfl, by conform Gen.gcn3.run_SMAXU32 Spec.s_max_u32⟩
+
+/-- GCN3 `s_cselect_b32` (format 0, opcode 10): the handler the opcode switch selects has, for every input, exactly the effect the ISA prescribes. -/
+theorem gcn3_s_cselect_b32_conforms : ConformsScc Gen.gcn3.dispatch 0 10 32 Spec.s_cselect_b32 :=
+  ⟨_, rfl, by conformS Gen.gcn3.run_SCSELECTB32 Spec.s_cselect_b32⟩
+
+/-- GCN3 `s_and_b32` (format 0, opcode 12): the handler the opcode switch selects has, for every input, exactly the effect the ISA prescribes. -/
+theorem gcn3_s_and_b32_conforms : ConformsTo Gen.gcn3.dispatch 0 12 32 Spec.s_and_b32 :=
+  ⟨_, rfl, by conform Gen.gcn3.run_SANDB32 Spec.s_and_b32⟩
+
+/-- GCN3 `s_and_b64` (format 0, opcode 13): the handler the opcode switch selects has, for every input, exactly the effect the ISA prescribes. -/
+theorem gcn3_s_and_b64_conforms : ConformsTo Gen.gcn3.dispatch 0 13 64 Spec.s_and_b64 :=
+  ⟨_, rfl, by conform Gen.gcn3.run_SANDB64 Spec.s_and_b64⟩
+
+/-- GCN3 `s_or_b64` (format 0, opcode 15): the handler the opcode switch selects has, for every input, exactly the effect the ISA prescribes. -/
+theorem gcn3_s_or_b64_conforms : ConformsTo Gen.gcn3.dispatch 0 15 64 Spec.s_or_b64 :=
+  ⟨_, rfl, by conform Gen.gcn3.run_SORB64 Spec.s_or_b64⟩
+
+/-- GCN3 `s_xor_b32` (format 0, opcode 16): the handler the opcode switch selects has, for every input, exactly the effect the ISA prescribes. -/
+theorem gcn3_s_xor_b32_conforms : ConformsTo Gen.gcn3.dispatch 0 16 32 Spec.s_xor_b32 :=
+  ⟨_, rfl, by conform Gen.gcn3.run_SXORB32 Spec.s_xor_b32⟩
+
+/-- GCN3 `s_xor_b64` (format 0, opcode 17): the handler the opcode switch selects has, for every input, exactly the effect the ISA prescribes. -/
+theorem gcn3_s_xor_b64_conforms : ConformsTo Gen.gcn3.dispatch 0 17 64 Spec.s_xor_b64 :=
+  ⟨_, rfl, by conform Gen.gcn3.run_SXORB64 Spec.s_xor_b64⟩
+
+/-- GCN3 `s_andn2_b64` (format 0, opcode 19): the handler the opcode switch selects has, for every input, exactly the effect the ISA prescribes. -/
+theorem gcn3_s_andn2_b64_conforms : ConformsTo Gen.gcn3.dispatch 0 19 64 Spec.s_andn2_b64 :=
+  ⟨_, rfl, by conform Gen.gcn3.run_SANDN2B64 Spec.s_andn2_b64⟩
+
+/-- GCN3 `s_lshl_b32` (format 0, opcode 28): the handler the opcode switch selects has, for every input, exactly the effect the ISA prescribes. -/
+theorem gcn3_s_lshl_b32_conforms : ConformsTo Gen.gcn3.dispatch 0 28 32 Spec.s_lshl_b32 :=
+  ⟨_, rfl, by conform Gen.gcn3.run_SLSHLB32 Spec.s_lshl_b32⟩
+
+/-- GCN3 `s_lshl_b64` (format 0, opcode 29): the handler the opcode switch selects has, for every input, exactly the effect the ISA prescribes. -/
+theorem gcn3_s_lshl_b64_conforms : ConformsTo Gen.gcn3.dispatch 0 29 64 Spec.s_lshl_b64 :=
+  ⟨_, rfl, by conform Gen.gcn3.run_SLSHLB64 Spec.s_lshl_b64⟩
+
+/-- GCN3 `s_lshr_b64` (format 0, opcode 31): the handler the opcode switch selects has, for every input, exactly the effect the ISA prescribes. -/
+theorem gcn3_s_lshr_b64_conforms : ConformsTo Gen.gcn3.dispatch 0 31 64 Spec.s_lshr_b64 :=
+  ⟨_, rfl, by conform Gen.gcn3.run_SLSHRB64 Spec.s_lshr_b64⟩
+
+/-- GCN3 `s_ashr_i32` (format 0, opcode 32): the handler the opcode switch selects has, for every input, exactly the effect the ISA prescribes. -/
+theorem gcn3_s_ashr_i32_conforms : ConformsTo Gen.gcn3.dispatch 0 32 32 Spec.s_ashr_i32 :=
+  ⟨_, rfl, by conform Gen.gcn3.run_SASHRI32 Spec.s_ashr_i32⟩
+
+/-- GCN3 `s_mul_i32` (format 0, opcode 36): the handler the opcode switch selects has, for every input, exactly the effect the ISA prescribes. -/
+theorem gcn3_s_mul_i32_conforms : ConformsTo Gen.gcn3.dispatch 0 36 32 Spec.s_mul_i32 :=
+  ⟨_, rfl, by conform Gen.gcn3.run_SMULI32 Spec.s_mul_i32⟩
+
+/-- GCN3 `s_cmpk_eq_i32` (format 1, opcode 2): the handler the opcode switch selects has, for every input, exactly the effect the ISA prescribes. -/
+theorem gcn3_s_cmpk_eq_i32_conforms : ConformsTo Gen.gcn3.dispatch 1 2 32 Spec.s_cmpk_eq_i32 :=
+  ⟨_, rfl, by conform Gen.gcn3.run_SCMPKEQI32 Spec.s_cmpk_eq_i32⟩
+
+/-- GCN3 `s_cmpk_lg_i32` (format 1, opcode 3): the handler the opcode switch selects has, for every input, exactly the effect the ISA prescribes. -/
+theorem gcn3_s_cmpk_lg_i32_conforms : ConformsTo Gen.gcn3.dispatch 1 3 32 Spec.s_cmpk_lg_i32 :=
+  ⟨_, rfl, by conform Gen.gcn3.run_SCMPKLGI32 Spec.s_cmpk_lg_i32⟩
+
+/-- GCN3 `s_mov_b32` (format 2, opcode 0): the handler the opcode switch selects has, for every input, exactly the effect the ISA prescribes. -/
+theorem gcn3_s_mov_b32_conforms : ConformsTo Gen.gcn3.dispatch 2 0 32 Spec.s_mov_b32 :=
+  ⟨_, rfl, by conform Gen.gcn3.run_SMOVB32 Spec.s_mov_b32⟩
+
+/-- GCN3 `s_mov_b64` (format 2, opcode 1): the handler the opcode switch selects has, for every input, exactly the effect the ISA prescribes. -/
+theorem gcn3_s_mov_b64_conforms : ConformsTo Gen.gcn3.dispatch 2 1 64 Spec.s_mov_b64 :=
+  ⟨_, rfl, by conform Gen.gcn3.run_SMOVB64 Spec.s_mov_b64⟩
+
+/-- GCN3 `s_not_b32` (format 2, opcode 4): the handler the opcode switch selects has, for every input, exactly the effect the ISA prescribes. -/
+theorem gcn3_s_not_b32_conforms : ConformsTo Gen.gcn3.dispatch 2 4 32 Spec.s_not_b32 :=
+  ⟨_, rfl, by conform Gen.gcn3.run_SNOTU32 Spec.s_not_b32⟩
+
+/-- GCN3 `s_getpc_b64` (format 2, opcode 28): the handler the opcode switch selects has, for every input, exactly the effect the ISA prescribes. -/
+theorem gcn3_s_getpc_b64_conforms : ConformsTo Gen.gcn3.dispatch 2 28 64 Spec.s_getpc_b64 :=
+  ⟨_, rfl, by conform Gen.gcn3.run_SGETPCB64 Spec.s_getpc_b64⟩
+
+/-- GCN3 `s_and_saveexec_b64` (format 2, opcode 32): the handler the opcode switch selects has, for every input, exactly the effect the ISA prescribes. -/
+theorem gcn3_s_and_saveexec_b64_conforms : ConformsTo Gen.gcn3.dispatch 2 32 64 Spec.s_and_saveexec_b64 :=
+  ⟨_, rfl, by conform Gen.gcn3.run_SANDSAVEEXECB64 Spec.s_and_saveexec_b64⟩
+
+/-- GCN3 `s_or_saveexec_b64` (format 2, opcode 33): the handler the opcode switch selects has, for every input, exactly the effect the ISA prescribes. -/
+theorem gcn3_s_or_saveexec_b64_conforms : ConformsTo Gen.gcn3.dispatch 2 33 64 Spec.s_or_saveexec_b64 :=
+  ⟨_, rfl, by conform Gen.gcn3.run_SORSAVEEXECB64 Spec.s_or_saveexec_b64⟩
+
+/-- GCN3 `s_xor_saveexec_b64` (format 2, opcode 34): the handler the opcode switch selects has, for every input, exactly the effect the ISA prescribes. -/
+theorem gcn3_s_xor_saveexec_b64_conforms : ConformsTo Gen.gcn3.dispatch 2 34 64 Spec.s_xor_saveexec_b64 :=
+  ⟨_, rfl, by conform Gen.gcn3.run_SXORSAVEEXECB64 Spec.s_xor_saveexec_b64⟩
+
+/-- GCN3 `s_andn2_saveexec_b64` (format 2, opcode 35): the handler the opcode switch selects has, for every input, exactly the effect the ISA prescribes. -/
+theorem gcn3_s_andn2_saveexec_b64_conforms : ConformsTo Gen.gcn3.dispatch 2 35 64 Spec.s_andn2_saveexec_b64 :=
+  ⟨_, rfl, by conform Gen.gcn3.run_SANDN2SAVEEXECB64 Spec.s_andn2_saveexec_b64⟩
+
+/-- GCN3 `s_orn2_saveexec_b64` (format 2, opcode 36): the handler the opcode switch selects has, for every input, exactly the effect the ISA prescribes. -/
+theorem gcn3_s_orn2_saveexec_b64_conforms : ConformsTo Gen.gcn3.dispatch 2 36 64 Spec.s_orn2_saveexec_b64 :=
+  ⟨_, rfl, by conform Gen.gcn3.run_SORN2SAVEEXECB64 Spec.s_orn2_saveexec_b64⟩
+
+/-- GCN3 `s_nand_saveexec_b64` (format 2, opcode 37): the handler the opcode switch selects has, for every input, exactly the effect the ISA prescribes. -/
+theorem gcn3_s_nand_saveexec_b64_conforms : ConformsTo Gen.gcn3.dispatch 2 37 64 Spec.s_nand_saveexec_b64 :=
+  ⟨_, rfl, by conform Gen.gcn3.run_SNANDSAVEEXECB64 Spec.s_nand_saveexec_b64⟩
+
+/-- GCN3 `s_nor_saveexec_b64` (format 2, opcode 38): the handler the opcode switch selects has, for every input, exactly the effect the ISA prescribes. -/
+theorem gcn3_s_nor_saveexec_b64_conforms : ConformsTo Gen.gcn3.dispatch 2 38 64 Spec.s_nor_saveexec_b64 :=
+  ⟨_, rfl, by conform Gen.gcn3.run_SNORSAVEEXECB64 Spec.s_nor_saveexec_b64⟩
+
+/-- GCN3 `s_xnor_saveexec_b64` (format 2, opcode 39): the handler the opcode switch selects has, for every input, exactly the effect the ISA prescribes. -/
+theorem gcn3_s_xnor_saveexec_b64_conforms : ConformsTo Gen.gcn3.dispatch 2 39 64 Spec.s_xnor_saveexec_b64 :=
+  ⟨_, rfl, by conform Gen.gcn3.run_SNXORSAVEEXECB64 Spec.s_xnor_saveexec_b64⟩
+
+/-- GCN3 `s_cmp_eq_i32` (format 3, opcode 0): the handler the opcode switch selects has, for every input, exactly the effect the ISA prescribes. -/
+theorem gcn3_s_cmp_eq_i32_conforms : ConformsTo Gen.gcn3.dispatch 3 0 0 Spec.s_cmp_eq_i32 :=
+  ⟨_, rfl, by conform Gen.gcn3.run_SCMPEQU32 Spec.s_cmp_eq_i32⟩
+
+/-- GCN3 `s_cmp_lg_i32` (format 3, opcode 1): the handler the opcode switch selects has, for every input, exactly the effect the ISA prescribes. -/
+theorem gcn3_s_cmp_lg_i32_conforms : ConformsTo Gen.gcn3.dispatch 3 1 0 Spec.s_cmp_lg_i32 :=
+  ⟨_, rfl, by conform Gen.gcn3.run_SCMPLGU32 Spec.s_cmp_lg_i32⟩
+
+/-- GCN3 `s_cmp_gt_i32` (format 3, opcode 2): the handler the opcode switch selects has, for every input, exactly the effect the ISA prescribes. -/
+theorem gcn3_s_cmp_gt_i32_conforms : ConformsTo Gen.gcn3.dispatch 3 2 0 Spec.s_cmp_gt_i32 :=
+  ⟨_, rfl, by conform Gen.gcn3.run_SCMPGTI32 Spec.s_cmp_gt_i32⟩
+
+/-- GCN3 `s_cmp_ge_i32` (format 3, opcode 3): the handler the opcode switch selects has, for every input, exactly the effect the ISA prescribes. -/
+theorem gcn3_s_cmp_ge_i32_conforms : ConformsTo Gen.gcn3.dispatch 3 3 0 Spec.s_cmp_ge_i32 :=
+  ⟨_, rfl, by conform Gen.gcn3.run_SCMPGEI32 Spec.s_cmp_ge_i32⟩
+
+/-- GCN3 `s_cmp_lt_i32` (format 3, opcode 4): the handler the opcode switch selects has, for every input, exactly the effect the ISA prescribes. -/
+theorem gcn3_s_cmp_lt_i32_conforms : ConformsTo Gen.gcn3.dispatch 3 4 0 Spec.s_cmp_lt_i32 :=
+  ⟨_, rfl, by conform Gen.gcn3.run_SCMPLTI32 Spec.s_cmp_lt_i32⟩
+
+/-- GCN3 `s_cmp_le_i32` (format 3, opcode 5): the handler the opcode switch selects has, for every input, exactly the effect the ISA prescribes. -/
+theorem gcn3_s_cmp_le_i32_conforms : ConformsTo Gen.gcn3.dispatch 3 5 0 Spec.s_cmp_le_i32 :=
+  ⟨_, rfl, by conform Gen.gcn3.run_SCMPLEI32 Spec.s_cmp_le_i32⟩
+
+/-- GCN3 `s_cmp_eq_u32` (format 3, opcode 6): the handler the opcode switch selects has, for every input, exactly the effect the ISA prescribes. -/
+theorem gcn3_s_cmp_eq_u32_conforms : ConformsTo Gen.gcn3.dispatch 3 6 0 Spec.s_cmp_eq_u32 :=
+  ⟨_, rfl, by conform Gen.gcn3.run_SCMPEQU32 Spec.s_cmp_eq_u32⟩
+
+/-- GCN3 `s_cmp_lg_u32` (format 3, opcode 7): the handler the opcode switch selects has, for every input, exactly the effect the ISA prescribes. -/
+theorem gcn3_s_cmp_lg_u32_conforms : ConformsTo Gen.gcn3.dispatch 3 7 0 Spec.s_cmp_lg_u32 :=
+  ⟨_, rfl, by conform Gen.gcn3.run_SCMPLGU32 Spec.s_cmp_lg_u32⟩
+
+/-- GCN3 `s_cmp_gt_u32` (format 3, opcode 8): the handler the opcode switch selects has, for every input, exactly the effect the ISA prescribes. -/
+theorem gcn3_s_cmp_gt_u32_conforms : ConformsTo Gen.gcn3.dispatch 3 8 0 Spec.s_cmp_gt_u32 :=
+  ⟨_, rfl, by conform Gen.gcn3.run_SCMPGTU32 Spec.s_cmp_gt_u32⟩
+
+/-- GCN3 `s_cmp_lt_u32` (format 3, opcode 10): the handler the opcode switch selects has, for every input, exactly the effect the ISA prescribes. -/
+theorem gcn3_s_cmp_lt_u32_conforms : ConformsTo Gen.gcn3.dispatch 3 10 0 Spec.s_cmp_lt_u32 :=
+  ⟨_, rfl, by conform Gen.gcn3.run_SCMPLTU32 Spec.s_cmp_lt_u32⟩
+
+/-- GCN3 `s_nop` (format 4, opcode 0): the handler the opcode switch selects has, for every input, exactly the effect the ISA prescribes. -/
+theorem gcn3_s_nop_conforms : ConformsTo Gen.gcn3.dispatch 4 0 0 Spec.s_nop :=
+  ⟨_, rfl, by intro i; first | rfl | (intro _; rfl)⟩
+
+/-- GCN3 `s_branch` (format 4, opcode 2): the handler the opcode switch selects has, for every input, exactly the effect the ISA prescribes. -/
+theorem gcn3_s_branch_conforms : ConformsTo Gen.gcn3.dispatch 4 2 0 Spec.s_branch :=
+  ⟨_, rfl, by conform Gen.gcn3.run_SCBRANCH Spec.s_branch⟩
+
+/-- GCN3 `s_cbranch_scc0` (format 4, opcode 4): the handler the opcode switch selects has, for every input, exactly the effect the ISA prescribes. -/
+theorem gcn3_s_cbranch_scc0_conforms : ConformsScc Gen.gcn3.dispatch 4 4 0 Spec.s_cbranch_scc0 :=
+  ⟨_, rfl, by conformS Gen.gcn3.run_SCBRANCHSCC0 Spec.s_cbranch_scc0⟩
+
+/-- GCN3 `s_cbranch_scc1` (format 4, opcode 5): the handler the opcode switch selects has, for every input, exactly the effect the ISA prescribes. -/
+theorem gcn3_s_cbranch_scc1_conforms : ConformsScc Gen.gcn3.dispatch 4 5 0 Spec.s_cbranch_scc1 :=
+  ⟨_, rfl, by conformS Gen.gcn3.run_SCBRANCHSCC1 Spec.s_cbranch_scc1⟩
+
+/-- GCN3 `s_cbranch_vccz` (format 4, opcode 6): the handler the opcode switch selects has, for every input, exactly the effect the ISA prescribes. -/
+theorem gcn3_s_cbranch_vccz_conforms : ConformsTo Gen.gcn3.dispatch 4 6 0 Spec.s_cbranch_vccz :=
+  ⟨_, rfl, by conform Gen.gcn3.run_SCBRANCHVCCZ Spec.s_cbranch_vccz⟩
+
+/-- GCN3 `s_cbranch_vccnz` (format 4, opcode 7): the handler the opcode switch selects has, for every input, exactly the effect the ISA prescribes. -/
+theorem gcn3_s_cbranch_vccnz_conforms : ConformsTo Gen.gcn3.dispatch 4 7 0 Spec.s_cbranch_vccnz :=
+  ⟨_, rfl, by conform Gen.gcn3.run_SCBRANCHVCCNZ Spec.s_cbranch_vccnz⟩
+
+/-- GCN3 `s_cbranch_execz` (format 4, opcode 8): the handler the opcode switch selects has, for every input, exactly the effect the ISA prescribes. -/
+theorem gcn3_s_cbranch_execz_conforms : ConformsTo Gen.gcn3.dispatch 4 8 0 Spec.s_cbranch_execz :=
+  ⟨_, rfl, by conform Gen.gcn3.run_SCBRANCHEXECZ Spec.s_cbranch_execz⟩
+
+/-- GCN3 `s_cbranch_execnz` (format 4, opcode 9): the handler the opcode switch selects has, for every input, exactly the effect the ISA prescribes. -/
+theorem gcn3_s_cbranch_execnz_conforms : ConformsTo Gen.gcn3.dispatch 4 9 0 Spec.s_cbranch_execnz :=
+  ⟨_, rfl, by conform Gen.gcn3.run_SCBRANCHEXECNZ Spec.s_cbranch_execnz⟩
+
+/-- GCN3 `s_waitcnt` (format 4, opcode 12): the handler the opcode switch selects has, for every input, exactly the effect the ISA prescribes. -/
+theorem gcn3_s_waitcnt_conforms : ConformsTo Gen.gcn3.dispatch 4 12 0 Spec.s_waitcnt :=
+  ⟨_, rfl, by intro i; first | rfl | (intro _; rfl)⟩
+
+/-- CDNA3 `s_add_u32` (format 0, opcode 0): the handler the opcode switch selects has, for every input, exactly the effect the ISA prescribes. -/
+theorem cdna3_s_add_u32_conforms : ConformsTo Gen.cdna3.dispatch 0 0 32 Spec.s_add_u32 :=
+  ⟨_, rfl, by conform Gen.cdna3.run_SADDU32 Spec.s_add_u32⟩
+
+/-- CDNA3 `s_sub_u32` (format 0, opcode 1): the handler the opcode switch selects has, for every input, exactly the effect the ISA prescribes. -/
+theorem cdna3_s_sub_u32_conforms : ConformsTo Gen.cdna3.dispatch 0 1 32 Spec.s_sub_u32 :=
+  ⟨_, rfl, by conform Gen.cdna3.run_SSUBU32 Spec.s_sub_u32⟩
+
+/-- CDNA3 `s_addc_u32` (format 0, opcode 4): the handler the opcode switch selects has, for every input, exactly the effect the ISA prescribes. -/
+theorem cdna3_s_addc_u32_conforms : ConformsScc Gen.cdna3.dispatch 0 4 32 Spec.s_addc_u32 :=
+  ⟨_, rfl, by conformS Gen.cdna3.run_SADDCU32 Spec.s_addc_u32⟩
+
+/-- CDNA3 `s_subb_u32` (format 0, opcode 5): the handler the opcode switch selects has, for every input, exactly the effect the ISA prescribes. -/
+theorem cdna3_s_subb_u32_conforms : ConformsScc Gen.cdna3.dispatch 0 5 32 Spec.s_subb_u32 :=
+  ⟨_, rfl, by conformS Gen.cdna3.run_SSUBBU32 Spec.s_subb_u32⟩
+
+/-- CDNA3 `s_min_i32` (format 0, opcode 6): the handler the opcode switch selects has, for every input, exactly the effect the ISA prescribes. -/
+theorem cdna3_s_min_i32_conforms : ConformsTo Gen.cdna3.dispatch 0 6 32 Spec.s_min_i32 :=
+  ⟨_, rfl, by conform Gen.cdna3.run_SMINI32 Spec.s_min_i32⟩
+
+/-- CDNA3 `s_min_u32` (format 0, opcode 7): the handler the opcode switch selects has, for every input, exactly the effect the ISA prescribes. -/
+theorem cdna3_s_min_u32_conforms : ConformsTo Gen.cdna3.dispatch 0 7 32 Spec.s_min_u32 :=
+  ⟨_, rfl, by conform Gen.cdna3.run_SMINU32 Spec.s_min_u32⟩
+
+/-- CDNA3 `s_max_i32` (format 0, opcode 8): the handler the opcode switch selects has, for every input, exactly the effect the ISA prescribes. -/
+theorem cdna3_s_max_i32_conforms : ConformsTo Gen.cdna3.dispatch 0 8 32 Spec.s_max_i32 :=
+  ⟨_, rfl, by conform Gen.cdna3.run_SMAXI32 Spec.s_max_i32⟩
+
+/-- CDNA3 `s_max_u32` (format 0, opcode 9): the handler the opcode switch selects has, for every input, exactly the effect the ISA prescribes. -/
+theorem cdna3_s_max_u32_conforms : ConformsTo Gen.cdna3.dispatch 0 9 32 Spec.s_max_u32 :=
+  ⟨_, rfl, by conform Gen.cdna3.run_SMAXU32 Spec.s_max_u32⟩
+
+/-- CDNA3 `s_cselect_b32` (format 0, opcode 10): the handler the opcode switch selects has, for every input, exactly the effect the ISA prescribes. -/
+theorem cdna3_s_cselect_b32_conforms : ConformsScc Gen.cdna3.dispatch 0 10 32 Spec.s_cselect_b32 :=
+  ⟨_, rfl, by conformS Gen.cdna3.run_SCSELECTB32 Spec.s_cselect_b32⟩
+
+/-- CDNA3 `s_cselect_b64` (format 0, opcode 11): the handler the opcode switch selects has, for every input, exactly the effect the ISA prescribes. -/
+theorem cdna3_s_cselect_b64_conforms : ConformsScc Gen.cdna3.dispatch 0 11 64 Spec.s_cselect_b64 :=
+  ⟨_, rfl, by conformS Gen.cdna3.run_SCSELECTB64 Spec.s_cselect_b64⟩
+
+/-- CDNA3 `s_and_b32` (format 0, opcode 12): the handler the opcode switch selects has, for every input, exactly the effect the ISA prescribes. -/
+theorem cdna3_s_and_b32_conforms : ConformsTo Gen.cdna3.dispatch 0 12 32 Spec.s_and_b32 :=
+  ⟨_, rfl, by conform Gen.cdna3.run_SANDB32 Spec.s_and_b32⟩
+
+/-- CDNA3 `s_and_b64` (format 0, opcode 13): the handler the opcode switch selects has, for every input, exactly the effect the ISA prescribes. -/
+theorem cdna3_s_and_b64_conforms : ConformsTo Gen.cdna3.dispatch 0 13 64 Spec.s_and_b64 :=
+  ⟨_, rfl, by conform Gen.cdna3.run_SANDB64 Spec.s_and_b64⟩
+
+/-- CDNA3 `s_or_b32` (format 0, opcode 14): the handler the opcode switch selects has, for every input, exactly the effect the ISA prescribes. -/
+theorem cdna3_s_or_b32_conforms : ConformsTo Gen.cdna3.dispatch 0 14 32 Spec.s_or_b32 :=
+  ⟨_, rfl, by conform Gen.cdna3.run_SORB32 Spec.s_or_b32⟩
+
+/-- CDNA3 `s_or_b64` (format 0, opcode 15): the handler the opcode switch selects has, for every input, exactly the effect the ISA prescribes. -/
+theorem cdna3_s_or_b64_conforms : ConformsTo Gen.cdna3.dispatch 0 15 64 Spec.s_or_b64 :=
+  ⟨_, rfl, by conform Gen.cdna3.run_SORB64 Spec.s_or_b64⟩
+
+/-- CDNA3 `s_xor_b32` (format 0, opcode 16): the handler the opcode switch selects has, for every input, exactly the effect the ISA prescribes. -/
+theorem cdna3_s_xor_b32_conforms : ConformsTo Gen.cdna3.dispatch 0 16 32 Spec.s_xor_b32 :=
+  ⟨_, rfl, by conform Gen.cdna3.run_SXORB32 Spec.s_xor_b32⟩
+
+/-- CDNA3 `s_xor_b64` (format 0, opcode 17): the handler the opcode switch selects has, for every input, exactly the effect the ISA prescribes. -/
+theorem cdna3_s_xor_b64_conforms : ConformsTo Gen.cdna3.dispatch 0 17 64 Spec.s_xor_b64 :=
+  ⟨_, rfl, by conform Gen.cdna3.run_SXORB64 Spec.s_xor_b64⟩
+
+/-- CDNA3 `s_andn2_b32` (format 0, opcode 18): the handler the opcode switch selects has, for every input, exactly the effect the ISA prescribes. -/
+theorem cdna3_s_andn2_b32_conforms : ConformsTo Gen.cdna3.dispatch 0 18 32 Spec.s_andn2_b32 :=
+  ⟨_, rfl, by conform Gen.cdna3.run_SANDN2B32 Spec.s_andn2_b32⟩
+
+/-- CDNA3 `s_andn2_b64` (format 0, opcode 19): the handler the opcode switch selects has, for every input, exactly the effect the ISA prescribes. -/
+theorem cdna3_s_andn2_b64_conforms : ConformsTo Gen.cdna3.dispatch 0 19 64 Spec.s_andn2_b64 :=
+  ⟨_, rfl, by conform Gen.cdna3.run_SANDN2B64 Spec.s_andn2_b64⟩
+
+/-- CDNA3 `s_orn2_b32` (format 0, opcode 20): the handler the opcode switch selects has, for every input, exactly the effect the ISA prescribes. -/
+theorem cdna3_s_orn2_b32_conforms : ConformsTo Gen.cdna3.dispatch 0 20 32 Spec.s_orn2_b32 :=
+  ⟨_, rfl, by conform Gen.cdna3.run_SORN2B32 Spec.s_orn2_b32⟩
+
+/-- CDNA3 `s_orn2_b64` (format 0, opcode 21): the handler the opcode switch selects has, for every input, exactly the effect the ISA prescribes. -/
+theorem cdna3_s_orn2_b64_conforms : ConformsTo Gen.cdna3.dispatch 0 21 64 Spec.s_orn2_b64 :=
+  ⟨_, rfl, by conform Gen.cdna3.run_SORN2B64 Spec.s_orn2_b64⟩
+
+/-- CDNA3 `s_lshl_b32` (format 0, opcode 28): the handler the opcode switch selects has, for every input, exactly the effect the ISA prescribes. -/
+theorem cdna3_s_lshl_b32_conforms : ConformsTo Gen.cdna3.dispatch 0 28 32 Spec.s_lshl_b32 :=
+  ⟨_, rfl, by conform Gen.cdna3.run_SLSHLB32 Spec.s_lshl_b32⟩
+
+/-- CDNA3 `s_lshl_b64` (format 0, opcode 29): the handler the opcode switch selects has, for every input, exactly the effect the ISA prescribes. -/
+theorem cdna3_s_lshl_b64_conforms : ConformsTo Gen.cdna3.dispatch 0 29 64 Spec.s_lshl_b64 :=
+  ⟨_, rfl, by conform Gen.cdna3.run_SLSHLB64 Spec.s_lshl_b64⟩
+
+/-- CDNA3 `s_lshr_b64` (format 0, opcode 31): the handler the opcode switch selects has, for every input, exactly the effect the ISA prescribes. -/
+theorem cdna3_s_lshr_b64_conforms : ConformsTo Gen.cdna3.dispatch 0 31 64 Spec.s_lshr_b64 :=
+  ⟨_, rfl, by conform Gen.cdna3.run_SLSHRB64 Spec.s_lshr_b64⟩
+
+/-- CDNA3 `s_ashr_i32` (format 0, opcode 32): the handler the opcode switch selects has, for every input, exactly the effect the ISA prescribes. -/
+theorem cdna3_s_ashr_i32_conforms : ConformsTo Gen.cdna3.dispatch 0 32 32 Spec.s_ashr_i32 :=
+  ⟨_, rfl, by conform Gen.cdna3.run_SASHRI32 Spec.s_ashr_i32⟩
+
+/-- CDNA3 `s_ashr_i64` (format 0, opcode 33): the handler the opcode switch selects has, for every input, exactly the effect the ISA prescribes. -/
+theorem cdna3_s_ashr_i64_conforms : ConformsTo Gen.cdna3.dispatch 0 33 64 Spec.s_ashr_i64 :=
+  ⟨_, rfl, by conform Gen.cdna3.run_SASHRI64 Spec.s_ashr_i64⟩
+
+/-- CDNA3 `s_mul_i32` (format 0, opcode 36): the handler the opcode switch selects has, for every input, exactly the effect the ISA prescribes. -/
+theorem cdna3_s_mul_i32_conforms : ConformsTo Gen.cdna3.dispatch 0 36 32 Spec.s_mul_i32 :=
+  ⟨_, rfl, by conform Gen.cdna3.run_SMULI32 Spec.s_mul_i32⟩
+
+/-- CDNA3 `s_movk_i32` (format 1, opcode 0): the handler the opcode switch selects has, for every input, exactly the effect the ISA prescribes. -/
+theorem cdna3_s_movk_i32_conforms : ConformsTo Gen.cdna3.dispatch 1 0 32 Spec.s_movk_i32 :=
+  ⟨_, rfl, by conform Gen.cdna3.run_SMOVKI32 Spec.s_movk_i32⟩
+
+/-- CDNA3 `s_cmovk_i32` (format 1, opcode 1): the handler the opcode switch selects has, for every input, exactly the effect the ISA prescribes. -/
+theorem cdna3_s_cmovk_i32_conforms : ConformsScc Gen.cdna3.dispatch 1 1 32 Spec.s_cmovk_i32 :=
+  ⟨_, rfl, by conformS Gen.cdna3.run_SCMOVKI32 Spec.s_cmovk_i32⟩
+
+/-- CDNA3 `s_cmpk_eq_i32` (format 1, opcode 2): the handler the opcode switch selects has, for every input, exactly the effect the ISA prescribes. -/
+theorem cdna3_s_cmpk_eq_i32_conforms : ConformsTo Gen.cdna3.dispatch 1 2 32 Spec.s_cmpk_eq_i32 :=
+  ⟨_, rfl, by conform Gen.cdna3.run_SCMPKEQI32 Spec.s_cmpk_eq_i32⟩
+
+/-- CDNA3 `s_cmpk_lg_i32` (format 1, opcode 3): the handler the opcode switch selects has, for every input, exactly the effect the ISA prescribes. -/
+theorem cdna3_s_cmpk_lg_i32_conforms : ConformsTo Gen.cdna3.dispatch 1 3 32 Spec.s_cmpk_lg_i32 :=
+  ⟨_, rfl, by conform Gen.cdna3.run_SCMPKLGI32 Spec.s_cmpk_lg_i32⟩
+
+/-- CDNA3 `s_mulk_i32` (format 1, opcode 15): the handler the opcode switch selects has, for every input, exactly the effect the ISA prescribes. -/
+theorem cdna3_s_mulk_i32_conforms : ConformsTo Gen.cdna3.dispatch 1 15 32 Spec.s_mulk_i32 :=
+  ⟨_, rfl, by conform Gen.cdna3.run_SMULKI32 Spec.s_mulk_i32⟩
+
+/-- CDNA3 `s_mov_b32` (format 2, opcode 0): the handler the opcode switch selects has, for every input, exactly the effect the ISA prescribes. -/
+theorem cdna3_s_mov_b32_conforms : ConformsTo Gen.cdna3.dispatch 2 0 32 Spec.s_mov_b32 :=
+  ⟨_, rfl, by conform Gen.cdna3.run_SMOVB32 Spec.s_mov_b32⟩
+
+/-- CDNA3 `s_mov_b64` (format 2, opcode 1): the handler the opcode switch selects has, for every input, exactly the effect the ISA prescribes. -/
+theorem cdna3_s_mov_b64_conforms : ConformsTo Gen.cdna3.dispatch 2 1 64 Spec.s_mov_b64 :=
+  ⟨_, rfl, by conform Gen.cdna3.run_SMOVB64 Spec.s_mov_b64⟩
+
+/-- CDNA3 `s_not_b32` (format 2, opcode 4): the handler the opcode switch selects has, for every input, exactly the effect the ISA prescribes. -/
+theorem cdna3_s_not_b32_conforms : ConformsTo Gen.cdna3.dispatch 2 4 32 Spec.s_not_b32 :=
+  ⟨_, rfl, by conform Gen.cdna3.run_SNOTU32 Spec.s_not_b32⟩
+
+/-- CDNA3 `s_getpc_b64` (format 2, opcode 28): the handler the opcode switch selects has, for every input, exactly the effect the ISA prescribes. -/
+theorem cdna3_s_getpc_b64_conforms : ConformsTo Gen.cdna3.dispatch 2 28 64 Spec.s_getpc_b64 :=
+  ⟨_, rfl, by conform Gen.cdna3.run_SGETPCB64 Spec.s_getpc_b64⟩
+
+/-- CDNA3 `s_and_saveexec_b64` (format 2, opcode 32): the handler the opcode switch selects has, for every input, exactly the effect the ISA prescribes. -/
+theorem cdna3_s_and_saveexec_b64_conforms : ConformsTo Gen.cdna3.dispatch 2 32 64 Spec.s_and_saveexec_b64 :=
+  ⟨_, rfl, by conform Gen.cdna3.run_SANDSAVEEXECB64 Spec.s_and_saveexec_b64⟩
+
+/-- CDNA3 `s_or_saveexec_b64` (format 2, opcode 33): the handler the opcode switch selects has, for every input, exactly the effect the ISA prescribes. -/
+theorem cdna3_s_or_saveexec_b64_conforms : ConformsTo Gen.cdna3.dispatch 2 33 64 Spec.s_or_saveexec_b64 :=
+  ⟨_, rfl, by conform Gen.cdna3.run_SORSAVEEXECB64 Spec.s_or_saveexec_b64⟩
+
+/-- CDNA3 `s_xor_saveexec_b64` (format 2, opcode 34): the handler the opcode switch selects has, for every input, exactly the effect the ISA prescribes. -/
+theorem cdna3_s_xor_saveexec_b64_conforms : ConformsTo Gen.cdna3.dispatch 2 34 64 Spec.s_xor_saveexec_b64 :=
+  ⟨_, rfl, by conform Gen.cdna3.run_SXORSAVEEXECB64 Spec.s_xor_saveexec_b64⟩
+
+/-- CDNA3 `s_andn2_saveexec_b64` (format 2, opcode 35): the handler the opcode switch selects has, for every input, exactly the effect the ISA prescribes. -/
+theorem cdna3_s_andn2_saveexec_b64_conforms : ConformsTo Gen.cdna3.dispatch 2 35 64 Spec.s_andn2_saveexec_b64 :=
+  ⟨_, rfl, by conform Gen.cdna3.run_SANDN2SAVEEXECB64 Spec.s_andn2_saveexec_b64⟩
+
+/-- CDNA3 `s_orn2_saveexec_b64` (format 2, opcode 36): the handler the opcode switch selects has, for every input, exactly the effect the ISA prescribes. -/
+theorem cdna3_s_orn2_saveexec_b64_conforms : ConformsTo Gen.cdna3.dispatch 2 36 64 Spec.s_orn2_saveexec_b64 :=
+  ⟨_, rfl, by conform Gen.cdna3.run_SORN2SAVEEXECB64 Spec.s_orn2_saveexec_b64⟩
+
+/-- CDNA3 `s_nand_saveexec_b64` (format 2, opcode 37): the handler the opcode switch selects has, for every input, exactly the effect the ISA prescribes. -/
+theorem cdna3_s_nand_saveexec_b64_conforms : ConformsTo Gen.cdna3.dispatch 2 37 64 Spec.s_nand_saveexec_b64 :=
+  ⟨_, rfl, by conform Gen.cdna3.run_SNANDSAVEEXECB64 Spec.s_nand_saveexec_b64⟩
+
+/-- CDNA3 `s_nor_saveexec_b64` (format 2, opcode 38): the handler the opcode switch selects has, for every input, exactly the effect the ISA prescribes. -/
+theorem cdna3_s_nor_saveexec_b64_conforms : ConformsTo Gen.cdna3.dispatch 2 38 64 Spec.s_nor_saveexec_b64 :=
+  ⟨_, rfl, by conform Gen.cdna3.run_SNORSAVEEXECB64 Spec.s_nor_saveexec_b64⟩
+
+/-- CDNA3 `s_xnor_saveexec_b64` (format 2, opcode 39): the handler the opcode switch selects has, for every input, exactly the effect the ISA prescribes. -/
+theorem cdna3_s_xnor_saveexec_b64_conforms : ConformsTo Gen.cdna3.dispatch 2 39 64 Spec.s_xnor_saveexec_b64 :=
+  ⟨_, rfl, by conform Gen.cdna3.run_SNXORSAVEEXECB64 Spec.s_xnor_saveexec_b64⟩
+
+/-- CDNA3 `s_cmp_eq_i32` (format 3, opcode 0): the handler the opcode switch selects has, for every input, exactly the effect the ISA prescribes. -/
+theorem cdna3_s_cmp_eq_i32_conforms : ConformsTo Gen.cdna3.dispatch 3 0 0 Spec.s_cmp_eq_i32 :=
+  ⟨_, rfl, by conform Gen.cdna3.run_SCMPEQI32 Spec.s_cmp_eq_i32⟩
+
+/-- CDNA3 `s_cmp_lg_i32` (format 3, opcode 1): the handler the opcode switch selects has, for every input, exactly the effect the ISA prescribes. -/
+theorem cdna3_s_cmp_lg_i32_conforms : ConformsTo Gen.cdna3.dispatch 3 1 0 Spec.s_cmp_lg_i32 :=
+  ⟨_, rfl, by conform Gen.cdna3.run_SCMPLGI32 Spec.s_cmp_lg_i32⟩
+
+/-- CDNA3 `s_cmp_gt_i32` (format 3, opcode 2): the handler the opcode switch selects has, for every input, exactly the effect the ISA prescribes. -/
+theorem cdna3_s_cmp_gt_i32_conforms : ConformsTo Gen.cdna3.dispatch 3 2 0 Spec.s_cmp_gt_i32 :=
+  ⟨_, rfl, by conform Gen.cdna3.run_SCMPGTI32 Spec.s_cmp_gt_i32⟩
+
+/-- CDNA3 `s_cmp_ge_i32` (format 3, opcode 3): the handler the opcode switch selects has, for every input, exactly the effect the ISA prescribes. -/
+theorem cdna3_s_cmp_ge_i32_conforms : ConformsTo Gen.cdna3.dispatch 3 3 0 Spec.s_cmp_ge_i32 :=
+  ⟨_, rfl, by conform Gen.cdna3.run_SCMPGEI32 Spec.s_cmp_ge_i32⟩
+
+/-- CDNA3 `s_cmp_lt_i32` (format 3, opcode 4): the handler the opcode switch selects has, for every input, exactly the effect the ISA prescribes. -/
+theorem cdna3_s_cmp_lt_i32_conforms : ConformsTo Gen.cdna3.dispatch 3 4 0 Spec.s_cmp_lt_i32 :=
+  ⟨_, rfl, by conform Gen.cdna3.run_SCMPLTI32 Spec.s_cmp_lt_i32⟩
+
+/-- CDNA3 `s_cmp_le_i32` (format 3, opcode 5): the handler the opcode switch selects has, for every input, exactly the effect the ISA prescribes. -/
+theorem cdna3_s_cmp_le_i32_conforms : ConformsTo Gen.cdna3.dispatch 3 5 0 Spec.s_cmp_le_i32 :=
+  ⟨_, rfl, by conform Gen.cdna3.run_SCMPLEI32 Spec.s_cmp_le_i32⟩
+
+/-- CDNA3 `s_cmp_eq_u32` (format 3, opcode 6): the handler the opcode switch selects has, for every input, exactly the effect the ISA prescribes. -/
+theorem cdna3_s_cmp_eq_u32_conforms : ConformsTo Gen.cdna3.dispatch 3 6 0 Spec.s_cmp_eq_u32 :=
+  ⟨_, rfl, by conform Gen.cdna3.run_SCMPEQU32 Spec.s_cmp_eq_u32⟩
+
+/-- CDNA3 `s_cmp_lg_u32` (format 3, opcode 7): the handler the opcode switch selects has, for every input, exactly the effect the ISA prescribes. -/
+theorem cdna3_s_cmp_lg_u32_conforms : ConformsTo Gen.cdna3.dispatch 3 7 0 Spec.s_cmp_lg_u32 :=
+  ⟨_, rfl, by conform Gen.cdna3.run_SCMPLGU32 Spec.s_cmp_lg_u32⟩
+
+/-- CDNA3 `s_cmp_gt_u32` (format 3, opcode 8): the handler the opcode switch selects has, for every input, exactly the effect the ISA prescribes. -/
+theorem cdna3_s_cmp_gt_u32_conforms : ConformsTo Gen.cdna3.dispatch 3 8 0 Spec.s_cmp_gt_u32 :=
+  ⟨_, rfl, by conform Gen.cdna3.run_SCMPGTU32 Spec.s_cmp_gt_u32⟩
+
+/-- CDNA3 `s_cmp_ge_u32` (format 3, opcode 9): the handler the opcode switch selects has, for every input, exactly the effect the ISA prescribes. -/
+theorem cdna3_s_cmp_ge_u32_conforms : ConformsTo Gen.cdna3.dispatch 3 9 0 Spec.s_cmp_ge_u32 :=
+  ⟨_, rfl, by conform Gen.cdna3.run_SCMPGEU32 Spec.s_cmp_ge_u32⟩
+
+/-- CDNA3 `s_cmp_lt_u32` (format 3, opcode 10): the handler the opcode switch selects has, for every input, exactly the effect the ISA prescribes. -/
+theorem cdna3_s_cmp_lt_u32_conforms : ConformsTo Gen.cdna3.dispatch 3 10 0 Spec.s_cmp_lt_u32 :=
+  ⟨_, rfl, by conform Gen.cdna3.run_SCMPLTU32 Spec.s_cmp_lt_u32⟩
+
+/-- CDNA3 `s_cmp_le_u32` (format 3, opcode 11): the handler the opcode switch selects has, for every input, exactly the effect the ISA prescribes. -/
+theorem cdna3_s_cmp_le_u32_conforms : ConformsTo Gen.cdna3.dispatch 3 11 0 Spec.s_cmp_le_u32 :=
+  ⟨_, rfl, by conform Gen.cdna3.run_SCMPLEU32 Spec.s_cmp_le_u32⟩
+
+/-- CDNA3 `s_nop` (format 4, opcode 0): the handler the opcode switch selects has, for every input, exactly the effect the ISA prescribes. -/
+theorem cdna3_s_nop_conforms : ConformsTo Gen.cdna3.dispatch 4 0 0 Spec.s_nop :=
+  ⟨_, rfl, by intro i; first | rfl | (intro _; rfl)⟩
+
+/-- CDNA3 `s_branch` (format 4, opcode 2): the handler the opcode switch selects has, for every input, exactly the effect the ISA prescribes. -/
+theorem cdna3_s_branch_conforms : ConformsTo Gen.cdna3.dispatch 4 2 0 Spec.s_branch :=
+  ⟨_, rfl, by conform Gen.cdna3.run_SCBRANCH Spec.s_branch⟩
+
+/-- CDNA3 `s_cbranch_scc0` (format 4, opcode 4): the handler the opcode switch selects has, for every input, exactly the effect the ISA prescribes. -/
+theorem cdna3_s_cbranch_scc0_conforms : ConformsScc Gen.cdna3.dispatch 4 4 0 Spec.s_cbranch_scc0 :=
+  ⟨_, rfl, by conformS Gen.cdna3.run_SCBRANCHSCC0 Spec.s_cbranch_scc0⟩
+
+/-- CDNA3 `s_cbranch_scc1` (format 4, opcode 5): the handler the opcode switch selects has, for every input, exactly the effect the ISA prescribes. -/
+theorem cdna3_s_cbranch_scc1_conforms : ConformsScc Gen.cdna3.dispatch 4 5 0 Spec.s_cbranch_scc1 :=
+  ⟨_, rfl, by conformS Gen.cdna3.run_SCBRANCHSCC1 Spec.s_cbranch_scc1⟩
+
+/-- CDNA3 `s_cbranch_vccz` (format 4, opcode 6): the handler the opcode switch selects has, for every input, exactly the effect the ISA prescribes. -/
+theorem cdna3_s_cbranch_vccz_conforms : ConformsTo Gen.cdna3.dispatch 4 6 0 Spec.s_cbranch_vccz :=
+  ⟨_, rfl, by conform Gen.cdna3.run_SCBRANCHVCCZ Spec.s_cbranch_vccz⟩
+
+/-- CDNA3 `s_cbranch_vccnz` (format 4, opcode 7): the handler the opcode switch selects has, for every input, exactly the effect the ISA prescribes. -/
+theorem cdna3_s_cbranch_vccnz_conforms : ConformsTo Gen.cdna3.dispatch 4 7 0 Spec.s_cbranch_vccnz :=
+  ⟨_, rfl, by conform Gen.cdna3.run_SCBRANCHVCCNZ Spec.s_cbranch_vccnz⟩
+
+/-- CDNA3 `s_cbranch_execz` (format 4, opcode 8): the handler the opcode switch selects has, for every input, exactly the effect the ISA prescribes. -/
+theorem cdna3_s_cbranch_execz_conforms : ConformsTo Gen.cdna3.dispatch 4 8 0 Spec.s_cbranch_execz :=
+  ⟨_, rfl, by conform Gen.cdna3.run_SCBRANCHEXECZ Spec.s_cbranch_execz⟩
+
+/-- CDNA3 `s_cbranch_execnz` (format 4, opcode 9): the handler the opcode switch selects has, for every input, exactly the effect the ISA prescribes. -/
+theorem cdna3_s_cbranch_execnz_conforms : ConformsTo Gen.cdna3.dispatch 4 9 0 Spec.s_cbranch_execnz :=
+  ⟨_, rfl, by conform Gen.cdna3.run_SCBRANCHEXECNZ Spec.s_cbranch_execnz⟩
+
+/-- CDNA3 `s_waitcnt` (format 4, opcode 12): the handler the opcode switch selects has, for every input, exactly the effect the ISA prescribes. -/
+theorem cdna3_s_waitcnt_conforms : ConformsTo Gen.cdna3.dispatch 4 12 0 Spec.s_waitcnt :=
+  ⟨_, rfl, by intro i; first | rfl | (intro _; rfl)⟩
+
+/-! ## The two ALUs agree wherever both implement an opcode (both manuals define these opcodes identically) -/
+
+/-- `s_add_u32`: `emu.ALUImpl` and `cdna3.ALU` have the same architectural effect on every input. -/
+theorem alu_agree_s_add_u32 : Agree 0 0 32 := agree_of_conforms gcn3_s_add_u32_conforms cdna3_s_add_u32_conforms
+
+/-- `s_sub_u32`: `emu.ALUImpl` and `cdna3.ALU` have the same architectural effect on every input. -/
+theorem alu_agree_s_sub_u32 : Agree 0 1 32 := agree_of_conforms gcn3_s_sub_u32_conforms cdna3_s_sub_u32_conforms
+
+/-- `s_addc_u32`: `emu.ALUImpl` and `cdna3.ALU` have the same architectural effect on every input. -/
+theorem alu_agree_s_addc_u32 : Agree 0 4 32 := agree_of_conformsScc gcn3_s_addc_u32_conforms cdna3_s_addc_u32_conforms
+
+/-- `s_subb_u32`: `emu.ALUImpl` and `cdna3.ALU` have the same architectural effect on every input. -/
+theorem alu_agree_s_subb_u32 : Agree 0 5 32 := agree_of_conformsScc gcn3_s_subb_u32_conforms cdna3_s_subb_u32_conforms
+
+/-- `s_min_i32`: `emu.ALUImpl` and `cdna3.ALU` have the same architectural effect on every input. -/
+theorem alu_agree_s_min_i32 : Agree 0 6 32 := agree_of_conforms gcn3_s_min_i32_conforms cdna3_s_min_i32_conforms
+
+/-- `s_min_u32`: `emu.ALUImpl` and `cdna3.ALU` have the same architectural effect on every input. -/
+theorem alu_agree_s_min_u32 : Agree 0 7 32 := agree_of_conforms gcn3_s_min_u32_conforms cdna3_s_min_u32_conforms
+
+/-- `s_max_i32`: `emu.ALUImpl` and `cdna3.ALU` have the same architectural effect on every input. -/
+theorem alu_agree_s_max_i32 : Agree 0 8 32 := agree_of_conforms gcn3_s_max_i32_conforms cdna3_s_max_i32_conforms
+
+/-- `s_max_u32`: `emu.ALUImpl` and `cdna3.ALU` have the same architectural effect on every input. -/
+theorem alu_agree_s_max_u32 : Agree 0 9 32 := agree_of_conforms gcn3_s_max_u32_conforms cdna3_s_max_u32_conforms
+
+/-- `s_cselect_b32`: `emu.ALUImpl` and `cdna3.ALU` have the same architectural effect on every input. -/
+theorem alu_agree_s_cselect_b32 : Agree 0 10 32 := agree_of_conformsScc gcn3_s_cselect_b32_conforms cdna3_s_cselect_b32_conforms
+
+/-- `s_and_b32`: `emu.ALUImpl` and `cdna3.ALU` have the same architectural effect on every input. -/
+theorem alu_agree_s_and_b32 : Agree 0 12 32 := agree_of_conforms gcn3_s_and_b32_conforms cdna3_s_and_b32_conforms
+
+/-- `s_and_b64`: `emu.ALUImpl` and `cdna3.ALU` have the same architectural effect on every input. -/
+theorem alu_agree_s_and_b64 : Agree 0 13 64 := agree_of_conforms gcn3_s_and_b64_conforms cdna3_s_and_b64_conforms
+
+/-- `s_or_b64`: `emu.ALUImpl` and `cdna3.ALU` have the same architectural effect on every input. -/
+theorem alu_agree_s_or_b64 : Agree 0 15 64 := agree_of_conforms gcn3_s_or_b64_conforms cdna3_s_or_b64_conforms
+
+/-- `s_xor_b32`: `emu.ALUImpl` and `cdna3.ALU` have the same architectural effect on every input. -/
+theorem alu_agree_s_xor_b32 : Agree 0 16 32 := agree_of_conforms gcn3_s_xor_b32_conforms cdna3_s_xor_b32_conforms
+
+/-- `s_xor_b64`: `emu.ALUImpl` and `cdna3.ALU` have the same architectural effect on every input. -/
+theorem alu_agree_s_xor_b64 : Agree 0 17 64 := agree_of_conforms gcn3_s_xor_b64_conforms cdna3_s_xor_b64_conforms
+
+/-- `s_andn2_b64`: `emu.ALUImpl` and `cdna3.ALU` have the same architectural effect on every input. -/
+theorem alu_agree_s_andn2_b64 : Agree 0 19 64 := agree_of_conforms gcn3_s_andn2_b64_conforms cdna3_s_andn2_b64_conforms
+
+/-- `s_lshl_b32`: `emu.ALUImpl` and `cdna3.ALU` have the same architectural effect on every input. -/
+theorem alu_agree_s_lshl_b32 : Agree 0 28 32 := agree_of_conforms gcn3_s_lshl_b32_conforms cdna3_s_lshl_b32_conforms
+
+/-- `s_lshl_b64`: `emu.ALUImpl` and `cdna3.ALU` have the same architectural effect on every input. -/
+theorem alu_agree_s_lshl_b64 : Agree 0 29 64 := agree_of_conforms gcn3_s_lshl_b64_conforms cdna3_s_lshl_b64_conforms
+
+/-- `s_lshr_b64`: `emu.ALUImpl` and `cdna3.ALU` have the same architectural effect on every input. -/
+theorem alu_agree_s_lshr_b64 : Agree 0 31 64 := agree_of_conforms gcn3_s_lshr_b64_conforms cdna3_s_lshr_b64_conforms
+
+/-- `s_ashr_i32`: `emu.ALUImpl` and `cdna3.ALU` have the same architectural effect on every input. -/
+theorem alu_agree_s_ashr_i32 : Agree 0 32 32 := agree_of_conforms gcn3_s_ashr_i32_conforms cdna3_s_ashr_i32_conforms
+
+/-- `s_mul_i32`: `emu.ALUImpl` and `cdna3.ALU` have the same architectural effect on every input. -/
+theorem alu_agree_s_mul_i32 : Agree 0 36 32 := agree_of_conforms gcn3_s_mul_i32_conforms cdna3_s_mul_i32_conforms
+
+/-- `s_cmpk_eq_i32`: `emu.ALUImpl` and `cdna3.ALU` have the same architectural effect on every input. -/
+theorem alu_agree_s_cmpk_eq_i32 : Agree 1 2 32 := agree_of_conforms gcn3_s_cmpk_eq_i32_conforms cdna3_s_cmpk_eq_i32_conforms
+
+/-- `s_cmpk_lg_i32`: `emu.ALUImpl` and `cdna3.ALU` have the same architectural effect on every input. -/
+theorem alu_agree_s_cmpk_lg_i32 : Agree 1 3 32 := agree_of_conforms gcn3_s_cmpk_lg_i32_conforms cdna3_s_cmpk_lg_i32_conforms
+
+/-- `s_mov_b32`: `emu.ALUImpl` and `cdna3.ALU` have the same architectural effect on every input. -/
+theorem alu_agree_s_mov_b32 : Agree 2 0 32 := agree_of_conforms gcn3_s_mov_b32_conforms cdna3_s_mov_b32_conforms
+
+/-- `s_mov_b64`: `emu.ALUImpl` and `cdna3.ALU` have the same architectural effect on every input. -/
+theorem alu_agree_s_mov_b64 : Agree 2 1 64 := agree_of_conforms gcn3_s_mov_b64_conforms cdna3_s_mov_b64_conforms
+
+/-- `s_not_b32`: `emu.ALUImpl` and `cdna3.ALU` have the same architectural effect on every input. -/
+theorem alu_agree_s_not_b32 : Agree 2 4 32 := agree_of_conforms gcn3_s_not_b32_conforms cdna3_s_not_b32_conforms
+
+/-- `s_getpc_b64`: `emu.ALUImpl` and `cdna3.ALU` have the same architectural effect on every input. -/
+theorem alu_agree_s_getpc_b64 : Agree 2 28 64 := agree_of_conforms gcn3_s_getpc_b64_conforms cdna3_s_getpc_b64_conforms
+
+/-- `s_and_saveexec_b64`: `emu.ALUImpl` and `cdna3.ALU` have the same architectural effect on every input. -/
+theorem alu_agree_s_and_saveexec_b64 : Agree 2 32 64 := agree_of_conforms gcn3_s_and_saveexec_b64_conforms cdna3_s_and_saveexec_b64_conforms
+
+/-- `s_or_saveexec_b64`: `emu.ALUImpl` and `cdna3.ALU` have the same architectural effect on every input. -/
+theorem alu_agree_s_or_saveexec_b64 : Agree 2 33 64 := agree_of_conforms gcn3_s_or_saveexec_b64_conforms cdna3_s_or_saveexec_b64_conforms
+
+/-- `s_xor_saveexec_b64`: `emu.ALUImpl` and `cdna3.ALU` have the same architectural effect on every input. -/
+theorem alu_agree_s_xor_saveexec_b64 : Agree 2 34 64 := agree_of_conforms gcn3_s_xor_saveexec_b64_conforms cdna3_s_xor_saveexec_b64_conforms
+
+/-- `s_andn2_saveexec_b64`: `emu.ALUImpl` and `cdna3.ALU` have the same architectural effect on every input. -/
+theorem alu_agree_s_andn2_saveexec_b64 : Agree 2 35 64 := agree_of_conforms gcn3_s_andn2_saveexec_b64_conforms cdna3_s_andn2_saveexec_b64_conforms
+
+/-- `s_orn2_saveexec_b64`: `emu.ALUImpl` and `cdna3.ALU` have the same architectural effect on every input. -/
+theorem alu_agree_s_orn2_saveexec_b64 : Agree 2 36 64 := agree_of_conforms gcn3_s_orn2_saveexec_b64_conforms cdna3_s_orn2_saveexec_b64_conforms
+
+/-- `s_nand_saveexec_b64`: `emu.ALUImpl` and `cdna3.ALU` have the same architectural effect on every input. -/
+theorem alu_agree_s_nand_saveexec_b64 : Agree 2 37 64 := agree_of_conforms gcn3_s_nand_saveexec_b64_conforms cdna3_s_nand_saveexec_b64_conforms
+
+/-- `s_nor_saveexec_b64`: `emu.ALUImpl` and `cdna3.ALU` have the same architectural effect on every input. -/
+theorem alu_agree_s_nor_saveexec_b64 : Agree 2 38 64 := agree_of_conforms gcn3_s_nor_saveexec_b64_conforms cdna3_s_nor_saveexec_b64_conforms
+
+/-- `s_xnor_saveexec_b64`: `emu.ALUImpl` and `cdna3.ALU` have the same architectural effect on every input. -/
+theorem alu_agree_s_xnor_saveexec_b64 : Agree 2 39 64 := agree_of_conforms gcn3_s_xnor_saveexec_b64_conforms cdna3_s_xnor_saveexec_b64_conforms
+
+/-- `s_cmp_eq_i32`: `emu.ALUImpl` and `cdna3.ALU` have the same architectural effect on every input. -/
+theorem alu_agree_s_cmp_eq_i32 : Agree 3 0 0 := agree_of_conforms gcn3_s_cmp_eq_i32_conforms cdna3_s_cmp_eq_i32_conforms
+
+/-- `s_cmp_lg_i32`: `emu.ALUImpl` and `cdna3.ALU` have the same architectural effect on every input. -/
+theorem alu_agree_s_cmp_lg_i32 : Agree 3 1 0 := agree_of_conforms gcn3_s_cmp_lg_i32_conforms cdna3_s_cmp_lg_i32_conforms
+
+/-- `s_cmp_gt_i32`: `emu.ALUImpl` and `cdna3.ALU` have the same architectural effect on every input. -/
+theorem alu_agree_s_cmp_gt_i32 : Agree 3 2 0 := agree_of_conforms gcn3_s_cmp_gt_i32_conforms cdna3_s_cmp_gt_i32_conforms
+
+/-- `s_cmp_ge_i32`: `emu.ALUImpl` and `cdna3.ALU` have the same architectural effect on every input. -/
+theorem alu_agree_s_cmp_ge_i32 : Agree 3 3 0 := agree_of_conforms gcn3_s_cmp_ge_i32_conforms cdna3_s_cmp_ge_i32_conforms
+
+/-- `s_cmp_lt_i32`: `emu.ALUImpl` and `cdna3.ALU` have the same architectural effect on every input. -/
+theorem alu_agree_s_cmp_lt_i32 : Agree 3 4 0 := agree_of_conforms gcn3_s_cmp_lt_i32_conforms cdna3_s_cmp_lt_i32_conforms
+
+/-- `s_cmp_le_i32`: `emu.ALUImpl` and `cdna3.ALU` have the same architectural effect on every input. -/
+theorem alu_agree_s_cmp_le_i32 : Agree 3 5 0 := agree_of_conforms gcn3_s_cmp_le_i32_conforms cdna3_s_cmp_le_i32_conforms
+
+/-- `s_cmp_eq_u32`: `emu.ALUImpl` and `cdna3.ALU` have the same architectural effect on every input. -/
+theorem alu_agree_s_cmp_eq_u32 : Agree 3 6 0 := agree_of_conforms gcn3_s_cmp_eq_u32_conforms cdna3_s_cmp_eq_u32_conforms
+
+/-- `s_cmp_lg_u32`: `emu.ALUImpl` and `cdna3.ALU` have the same architectural effect on every input. -/
+theorem alu_agree_s_cmp_lg_u32 : Agree 3 7 0 := agree_of_conforms gcn3_s_cmp_lg_u32_conforms cdna3_s_cmp_lg_u32_conforms
+
+/-- `s_cmp_gt_u32`: `emu.ALUImpl` and `cdna3.ALU` have the same architectural effect on every input. -/
+theorem alu_agree_s_cmp_gt_u32 : Agree 3 8 0 := agree_of_conforms gcn3_s_cmp_gt_u32_conforms cdna3_s_cmp_gt_u32_conforms
+
+/-- `s_cmp_lt_u32`: `emu.ALUImpl` and `cdna3.ALU` have the same architectural effect on every input. -/
+theorem alu_agree_s_cmp_lt_u32 : Agree 3 10 0 := agree_of_conforms gcn3_s_cmp_lt_u32_conforms cdna3_s_cmp_lt_u32_conforms
+
+/-- `s_nop`: `emu.ALUImpl` and `cdna3.ALU` have the same architectural effect on every input. -/
+theorem alu_agree_s_nop : Agree 4 0 0 := agree_of_conforms gcn3_s_nop_conforms cdna3_s_nop_conforms
+
+/-- `s_branch`: `emu.ALUImpl` and `cdna3.ALU` have the same architectural effect on every input. -/
+theorem alu_agree_s_branch : Agree 4 2 0 := agree_of_conforms gcn3_s_branch_conforms cdna3_s_branch_conforms
+
+/-- `s_cbranch_scc0`: `emu.ALUImpl` and `cdna3.ALU` have the same architectural effect on every input. -/
+theorem alu_agree_s_cbranch_scc0 : Agree 4 4 0 := agree_of_conformsScc gcn3_s_cbranch_scc0_conforms cdna3_s_cbranch_scc0_conforms
+
+/-- `s_cbranch_scc1`: `emu.ALUImpl` and `cdna3.ALU` have the same architectural effect on every input. -/
+theorem alu_agree_s_cbranch_scc1 : Agree 4 5 0 := agree_of_conformsScc gcn3_s_cbranch_scc1_conforms cdna3_s_cbranch_scc1_conforms
+
+/-- `s_cbranch_vccz`: `emu.ALUImpl` and `cdna3.ALU` have the same architectural effect on every input. -/
+theorem alu_agree_s_cbranch_vccz : Agree 4 6 0 := agree_of_conforms gcn3_s_cbranch_vccz_conforms cdna3_s_cbranch_vccz_conforms
+
+/-- `s_cbranch_vccnz`: `emu.ALUImpl` and `cdna3.ALU` have the same architectural effect on every input. -/
+theorem alu_agree_s_cbranch_vccnz : Agree 4 7 0 := agree_of_conforms gcn3_s_cbranch_vccnz_conforms cdna3_s_cbranch_vccnz_conforms
+
+/-- `s_cbranch_execz`: `emu.ALUImpl` and `cdna3.ALU` have the same architectural effect on every input. -/
+theorem alu_agree_s_cbranch_execz : Agree 4 8 0 := agree_of_conforms gcn3_s_cbranch_execz_conforms cdna3_s_cbranch_execz_conforms
+
+/-- `s_cbranch_execnz`: `emu.ALUImpl` and `cdna3.ALU` have the same architectural effect on every input. -/
+theorem alu_agree_s_cbranch_execnz : Agree 4 9 0 := agree_of_conforms gcn3_s_cbranch_execnz_conforms cdna3_s_cbranch_execnz_conforms
+
+/-- `s_waitcnt`: `emu.ALUImpl` and `cdna3.ALU` have the same architectural effect on every input. -/
+theorem alu_agree_s_waitcnt : Agree 4 12 0 := agree_of_conforms gcn3_s_waitcnt_conforms cdna3_s_waitcnt_conforms
+
+/-! ## Frame -/
+
+/-- Frame: a conforming handler writes a cell only if the specification does — in particular no
+    scalar opcode's handler can write VCC, and only SOPP branches write PC. -/
+theorem frame_of_conforms {disp : Nat → Nat → Option (ScalarIn → ScalarOut)} {fmt op w : Nat}
+    {spec : ScalarIn → ScalarOut} (h : ConformsTo disp fmt op w spec) :
+    ∃ f, disp fmt op = some f ∧ ∀ i, ((spec i).vcc = none → (f i).vcc = none) ∧
+      ((spec i).pc = none → (f i).pc = none) ∧ ((spec i).exec = none → (f i).exec = none) ∧
+      ((spec i).scc = none → (f i).scc = none) ∧ ((spec i).dst = none → (f i).dst = none) := by
+  obtain ⟨f, hf, hc⟩ := h
+  refine ⟨f, hf, fun i => ?_⟩
+  have := hc i
+  rw [← this]
+  simp only [ScalarOut.norm, Option.map_eq_none_iff]
+  exact ⟨id, id, id, id, id⟩
+
+/-- e.g. the GCN3 `s_mul_i32` handler writes its destination and nothing else (SCC untouched). -/
+theorem gcn3_s_mul_i32_frame :
+    ∃ f, Gen.gcn3.dispatch 0 36 = some f ∧ ∀ i, (f i).scc = none ∧ (f i).vcc = none ∧ (f i).exec = none ∧ (f i).pc = none := by
+  obtain ⟨f, hf, h⟩ := frame_of_conforms gcn3_s_mul_i32_conforms
+  exact ⟨f, hf, fun i => ⟨(h i).2.2.2.1 rfl, (h i).1 rfl, (h i).2.2.1 rfl, (h i).2.1 rfl⟩⟩
+
+/-- SCC stays a bit: whatever a conforming handler writes to SCC is 0 or 1 (so `sccOk` is an
+    invariant of execution). -/
+theorem spec_bit_is_bit (b : Bool) : Spec.bit b = 0#8 ∨ Spec.bit b = 1#8 := by
+  cases b <;> simp [Spec.bit]
+
+example : ScalarIn.sccOk { src0 := 5#64, src1 := 3#64, dstOld := 0, scc := 1, vcc := 0, exec := 0, pc := 0x1000, simm16 := 0 } := Or.inr rfl
+
 end C03S
